@@ -309,6 +309,16 @@ def build():
         ctx.events.append(("Unpickler.__init__",))
         return None
 
+    def exact_reader_over(interp, reader, fh):
+        if isinstance(reader, Opaque):
+            return reader is fh and "BufferedIOBase" in reader.attrs.get("isinstance", ())
+        if isinstance(reader, SObj):
+            c = interp.pack.contract_for(NU, reader.cls + ".read") or interp.pack.contract_for(NP, reader.cls + ".read")
+            return c is not None and EXACT in c.ensures and any(v is fh for v in reader.fields.values())
+        return False
+
+    p.spec_funcs["exact_reader_over"] = exact_reader_over
+
     def src_kind(interp):
         k = [("IOBase", "BufferedIOBase"), ("IOBase", "RawIOBase"), ()][interp.ctx.choose(3, "reader-kind")]
         o = Opaque("srcfile", None, isinstance=k, readline=Opaque("boundmethod", None))
@@ -322,7 +332,9 @@ def build():
         calls={"Unpickler.__init__": unpickler_init},
         globals={"os": lambda i: Opaque("osmod", None, path=Opaque("ospath", None))},
         ensures={"pickle_initialised_once": "n_events('Unpickler.__init__') == 1",
-                 "arrays_are_read_from_the_given_file": "self.file_handle is file_handle and self.filename is filename and self.mmap_mode is mmap_mode"},
+                 # the array readers (padding length, padding, array bytes, nested pickles of object arrays) pull from self.file_handle: it has to
+                 # be the caller's file, and exact like the reader the unpickler itself uses
+                 "arrays_are_read_from_the_given_file_through_an_exact_reader": "exact_reader_over(self.file_handle, file_handle) and self.filename is filename and self.mmap_mode is mmap_mode"},
     ))
     p.models["ospath.dirname"] = lambda i, r, a, k: STR.fresh(i.ctx, "dirname")
 
@@ -436,6 +448,34 @@ def build():
             "no_compression_request_and_no_compression_extension_means_raw": "implies((compress is False or compress == 0) and not filename.endswith('.gz'), wf() is None)",
             "extension_of_a_builtin_format_still_selects_it": "implies(filename.endswith('.gz'), wf() is not None and wf()[2] == 'gzip')",
         },
+    ))
+
+    # ---- _detect_compressor with a USER-registered compressor whose magic number was left at the default b"" (CompressorWrapper(obj) - the
+    # documented constructor has prefix=b"" as default): a format without a magic number cannot be recognised from the content, so it must
+    # never be "recognised" - every uncompressed file starts with the empty string
+    def table_with_prefixless(interp):
+        t = table(interp)
+        cls = "CompressorWrapper"
+        obj = SObj(cls, {})
+        kind, mod, c, n = interp.pack.find_attr(cls, "__init__")
+        from pyvc.values import Closure
+        from pyvc.interp import Env
+        interp.call_closure(Closure(n, Env(mod, owner_cls=c), mod, owner_cls=c), [obj, Opaque("userfileobj", None)], {})
+        obj.fields["_regname"] = "noprefix"
+        d = dict(t.d)
+        d["noprefix"] = obj
+        return PyDict(d)
+
+    pglob = dict(glob)
+    pglob["_COMPRESSORS"] = table_with_prefixless
+    p.add(Contract(
+        NU, "_detect_compressor", variant="with-a-prefixless-user-compressor", props=["C03"], globals=pglob, ghost=dict(FIRST=BYTES, POS0=INT, POS=INT), setup=stream_setup,
+        inline={"_get_prefixes_max_len"} | {c + ".__init__" for _, c in ADAPTERS},
+        requires=["has_peek(fileobj) or POS0 == 0"],
+        params=dict(fileobj=fobj),
+        returns=lambda interp, env: Alternatives(["compat", "not-compressed", "noprefix"] + METHODS),
+        ensures={"a_format_without_magic_number_is_never_recognised": "result != 'noprefix'",
+                 "plain_pickle": "implies(starts(FIRST, b'\\x80'), result == 'not-compressed')"},
     ))
 
     # ------------------------------------------------------------------ load / _unpickle: the read side of the dispatch
